@@ -107,6 +107,18 @@ def generate(ctx):
             if not any(r and any(len(v) for v in r.values()) for r in rws):
                 rws.append({nm: [v for v in (gen.gen_value(rng, t, 0) for _ in range(40)) if v == v][:2] for nm, t in sch})
             inp = ao.mk_input(rng, content=(sch, rws), recipes=[l for l in fo.LAYOUTS if l != "history"])
+        elif direction == "elements" and rng.random() < 0.4:
+            # element types that inference WOULD get wrong: an int64 field whose first table holds a null (inferred double), a
+            # bool field with a null (inferred object): packing the boxed tables WITH the dtype must keep them
+            sch = [("a", "int64"), ("b", rng.choice(["bool", "string", "double"]))]
+            nr = rng.randint(1, 5)
+            rws = [{"a": [None, 7][: rng.randint(1, 2)] + [gen.gen_value(rng, "int64", 0.2) for _ in range(rng.randint(0, 2))],
+                    "b": []}]
+            rws[0]["b"] = [gen.gen_value(rng, sch[1][1], 0.3) for _ in rws[0]["a"]]
+            for _ in range(nr - 1):
+                k = rng.randint(0, 3)
+                rws.append(None if rng.random() < 0.2 else {nm: [gen.gen_value(rng, t, 0.2) for _ in range(k)] for nm, t in sch})
+            inp = ao.mk_input(rng, content=(sch, rws), recipes=[l for l in fo.LAYOUTS if l != "history"])
         else:
             inp = ao.mk_input(rng, max_rows=7 if ctx.tier == "quick" else 12, recipes=fo.LAYOUTS)
         if inp.get("history_failed"):
